@@ -44,8 +44,8 @@ func (a *acct) key() string { return a.user + "@" + a.host }
 var (
 	userPool  = []string{"al", "bo", "cy", "di"}
 	exactPool = []string{"localhost", "127.0.0.1"}
-	pattPool  = []string{"127.0.0.%", "127.%", "127.0.0._", "127.0.%"}
-	missPool  = []string{"10.%", "192.168.1.5", "%.example.com", "otherhost", "128.%", "127.0.1.%", "27.%", "%.0.0.2", "127.0.0.11"}
+	pattPool  = []string{"127.0.0.%", "127.%", "127.0.0._", "127.0.%", "127.%.1", "127.%.0.1", "%.0.0.1"}
+	missPool  = []string{"10.%", "192.168.1.5", "%.example.com", "otherhost", "128.%", "127.0.1.%", "27.%", "%.0.0.2", "127.0.0.11", "127.%.0", "127.0.%.2", "12%.0.0", "127.0.0.1%5"}
 	pwPool    = []string{"", "pw", "Secret1", "a b", "pässwörd", "0", "longer-password-123", "x"}
 )
 
